@@ -20,61 +20,82 @@ Section Tie.
 
   Ltac field_eq := try reflexivity; try (unfold two; ring).
 
+  (* The tie tactics work up to ring equalities, not syntactic identity: a semantics-preserving rewrite of the Rust
+     arithmetic (commuted / re-associated products, a temporary introduced or removed, x.square() for x * x, a
+     doubling written as an addition) leaves every lemma below provable.  `unify1 f` makes ring-equal arguments
+     of two occurrences of the opaque function f syntactically equal; then the case split on f applies to both sides. *)
+  Ltac unify1 f :=
+    repeat match goal with
+    | |- context [f ?a] =>
+        match goal with
+        | |- context [f ?b] => lazymatch a with b => fail | _ => replace a with b by (unfold two; ring) end
+        end
+    end.
+  Ltac unify_feqb :=
+    repeat match goal with
+    | |- context [feqb ?a ?c] =>
+        match goal with
+        | |- context [feqb ?b ?d] =>
+            lazymatch constr:((a, c)) with (b, d) => fail
+            | _ => replace (feqb a c) with (feqb b d) by (f_equal; unfold two; ring) end
+        end
+    end.
+  Ltac pt_eq := try reflexivity;
+    first [ apply pt_ext; unfold two; ring
+          | f_equal; apply pt_ext; unfold two; ring
+          | f_equal; unfold two; ring
+          | unfold two; ring ].
+  Ltac tie :=
+    cbv zeta; unfold two;
+    repeat (first
+      [ progress cbn [negb]
+      | progress unify1 (sr 1)
+      | match goal with |- context [sr 1 ?a] => destruct (sr 1 a) as [? ?] end
+      | progress unify1 neg
+      | match goal with |- context [if neg ?a then _ else _] => destruct (neg a) end
+      | match goal with |- context [if negb ?b then _ else _] => destruct b; cbn [negb] end
+      | match goal with |- context [if ?b then _ else _] => is_var b; destruct b end
+      | match goal with |- context [Bool.eqb ?x ?y] => destruct (Bool.eqb x y) end ]);
+    pt_eq.
+
   Lemma tie_ark_decode s : G.ark_decode cD neg sr mkpt s = decode cD neg sr s.
-  Proof.
-    unfold G.ark_decode, decode. cbv zeta. destruct (neg s); [reflexivity|].
-    destruct (sr 1 _) as [b v]. destruct (negb b); [reflexivity|].
-    destruct (neg _); f_equal.
-  Qed.
+  Proof. unfold G.ark_decode, decode. tie. Qed.
 
   Lemma tie_min_decode s : G.min_decode cD neg sr mkpt s = decode cD neg sr s.
-  Proof.
-    unfold G.min_decode, decode. cbv zeta.
-    destruct (neg s); [reflexivity|].
-    replace (fofZ 4 * cD) with (cD * fofZ 4) by ring.
-    destruct (sr 1 _) as [b v]. destruct (negb b); [reflexivity|].
-    fold two.
-    destruct (neg _); f_equal.
-  Qed.
+  Proof. unfold G.min_decode, decode. tie. Qed.
 
   Lemma tie_ark_encode p : G.ark_encode cA cD neg sr p = encode cA cD neg sr p.
-  Proof. unfold G.ark_encode, encode. cbv zeta. destruct (sr 1 _) as [b v]. reflexivity. Qed.
+  Proof. unfold G.ark_encode, encode, fabs. tie. Qed.
 
   Lemma tie_min_encode p : G.min_encode cA cD neg sr p = encode cA cD neg sr p.
-  Proof. unfold G.min_encode, encode. cbv zeta. destruct (sr 1 _) as [b v]. reflexivity. Qed.
+  Proof. unfold G.min_encode, encode, fabs. tie. Qed.
 
   Lemma tie_ark_elligator r0 : G.ark_elligator cA cD zeta neg sr mkpt r0 = elligator cA cD zeta neg sr r0.
-  Proof.
-    unfold G.ark_elligator, elligator. cbv zeta. destruct (sr 1 _) as [b v].
-    destruct b; destruct (Bool.eqb _ _); reflexivity.
-  Qed.
+  Proof. unfold G.ark_elligator, elligator. tie. Qed.
 
   Lemma tie_min_elligator r0 : G.min_elligator cA cD zeta neg sr mkpt r0 = elligator cA cD zeta neg sr r0.
-  Proof.
-    unfold G.min_elligator, elligator. cbv zeta. fold two. destruct (sr 1 _) as [b v].
-    destruct b; destruct (Bool.eqb _ _); reflexivity.
-  Qed.
+  Proof. unfold G.min_elligator, elligator. tie. Qed.
 
   Lemma tie_min_add p q : G.min_add cK mkpt p q = min_add cK p q.
-  Proof. reflexivity. Qed.
+  Proof. unfold G.min_add, min_add. tie. Qed.
 
   Lemma tie_min_double p : G.min_double mkpt p = min_double p.
-  Proof. reflexivity. Qed.
+  Proof. unfold G.min_double, min_double. tie. Qed.
 
   Lemma tie_min_eq p q : G.min_eq p q = min_eqE p q.
-  Proof. reflexivity. Qed.
+  Proof. unfold G.min_eq, min_eqE. cbv zeta. unify_feqb. reflexivity. Qed.
 
   Lemma tie_ark_eq p q : G.ark_eq p q = eqE p q.
-  Proof. reflexivity. Qed.
+  Proof. unfold G.ark_eq, eqE. cbv zeta. unify_feqb. reflexivity. Qed.
 
   Lemma tie_min_is_identity p : G.min_is_identity p = is_identity p.
-  Proof. reflexivity. Qed.
+  Proof. unfold G.min_is_identity, is_identity. cbv zeta. unify_feqb. reflexivity. Qed.
 
   Lemma tie_ark_is_identity p : G.ark_is_identity p = is_identity p.
-  Proof. reflexivity. Qed.
+  Proof. unfold G.ark_is_identity, is_identity. cbv zeta. unify_feqb. reflexivity. Qed.
 
   Lemma tie_sign_abs x : G.sign_abs neg x = fabs neg x.
-  Proof. unfold G.sign_abs, fabs. destruct (neg x); reflexivity. Qed.
+  Proof. unfold G.sign_abs, fabs. tie. Qed.
 
   (* ---- loops ---- *)
   Lemma zrange_seq n : zrange 0 (Z.of_nat n) = map Z.of_nat (seq 0 n).
